@@ -1056,7 +1056,36 @@ def gen_spec(run_seed, prop, pool, hashseeds, knobs=None):
     max_ops = knobs.get("max_ops", 8 if prop == "C14" else 14)
     threads = []
     race_kind = None
-    if multi and mols and valid_strs and (knobs.get("race") or rng.random() < 0.15):
+    rsh = Random(H(run_seed, "shared"))  # its own stream: the other run kinds keep their specs
+    shared_warm = None
+    if multi and mols and prop == "C14" and (knobs.get("shared") or rsh.random() < (0.15 if knobs.get("race") else 0.08)):
+        # "shared-object run": the warm-up makes a few graphs once and every client
+        # holds the very same objects, handing them to the nominally read-only
+        # operations at the same time (one canonicalized molecule serialized, written
+        # and canonicalized again by several threads)
+        race_kind = "shared"
+        k = rsh.randint(1, 2)
+        head = []
+        for j in range(k):
+            head += [{"op": "read", "text": rsh.choice(mols), "share": f"s{j}"}, {"op": "canon", "arg": 2 * j, "share": f"c{j}"}]
+        shared_warm = [dict(o) for o in head]
+        if rsh.random() < 0.5:
+            shared_warm += [{"op": "serialize", "arg": 2 * j + 1} for j in range(k)]
+        mix = rsh.choice([("serialize",), ("serialize",), ("serialize", "serialize", "canon", "write"), ("serialize", "canon"), ("serialize", "write"), ("canon", "write")])
+        for t in range(nthreads):
+            r2 = Random(H(run_seed, "shared", t))
+            ops = [dict(o) for o in head]
+            for _ in range(r2.randint(4, 14)):
+                kind = r2.choice(mix)
+                j = r2.randrange(k)
+                if kind == "serialize":
+                    ops.append({"op": "serialize", "arg": 2 * j + 1})
+                elif kind == "write":
+                    ops.append({"op": "write", "arg": 2 * j + r2.randrange(2), "calc": False})
+                else:
+                    ops.append({"op": "canon", "arg": 2 * j + r2.randrange(2)})
+            threads.append(ops)
+    elif multi and mols and valid_strs and (knobs.get("race") or rng.random() < 0.15):
         # "race run": every client does the same kind of (cheap, warm) operation many
         # times on different inputs, so that same-kind calls overlap all the time
         race_kind = rng.choice(["read", "read", "canon", "serialize", "write", "parse", "pipeline"])
@@ -1119,7 +1148,10 @@ def gen_spec(run_seed, prop, pool, hashseeds, knobs=None):
         # a long process history (size-bounded caches, counters): hundreds of earlier calls
         nw = rng.randint(300, knobs.get("max_long_history", 1200))
     warm = []
-    if race_kind:
+    if shared_warm is not None:
+        nw = 0
+        warm = shared_warm
+    elif race_kind:
         # caches warm, so that the racing operations are short and overlap densely
         nw = 0
         warm = [{"op": "parse", "text": t} for t in sorted({o["text"] for ops in threads for o in ops if o["op"] == "parse"})][:6]
